@@ -423,12 +423,6 @@ void hx_gen(Rng &r, const std::string &tier)
         for (auto &b : V)
             for (auto op : ops4)
                 emit(std::string(op) + " " + a + " " + b, std::string("small-") + a[0] + "x" + b[0]);
-    long E = th ? 9 : 6;
-    for (auto &a : V)
-        for (long e = -E; e <= E; e++) {
-            emit("pow " + a + " " + itok(e), std::string("small-pow-") + a[0]);
-            emit("tpow " + a + " " + itok(e), std::string("small-tpow-") + a[0]);
-        }
     // constructors given non-canonical input must normalise
     emit("add r6/-4 r4/2", "ctor");
     emit("add c6/4,0/5 c1/1,2/-4", "ctor");
@@ -441,10 +435,17 @@ void hx_gen(Rng &r, const std::string &tier)
         const char *op = ops4[r.below(4)];
         emit(std::string(op) + " " + a + " " + b, std::string("multilimb-") + a[0] + "x" + b[0]);
     }
+    // integer powers last (0 ** negative crashed the unpatched library; keep such cases at the end)
     int np = th ? 4000 : 600;
     for (int i = 0; i < np; i++) {
-        std::string a = r.coin(1, 10) ? "i0" : rand_exact(r, r.coin() ? 150 : 40);
+        std::string a = r.coin(1, 80) ? "i0" : rand_exact(r, r.coin() ? 150 : 40);
         long e = r.range(-24, 24);
         emit(std::string(r.coin() ? "pow " : "tpow ") + a + " " + itok(e), std::string("multilimb-pow-") + a[0]);
     }
+    long E = th ? 9 : 6;
+    for (auto &a : V)
+        for (long e = -E; e <= E; e++) {
+            emit("pow " + a + " " + itok(e), std::string("small-pow-") + a[0]);
+            emit("tpow " + a + " " + itok(e), std::string("small-tpow-") + a[0]);
+        }
 }
